@@ -218,3 +218,41 @@ def k15_relative(res, tier, seed, tag="k15r"):
         res.broke("correspondence-error", "K15", e)
     for i in fails[:5]:
         res.broke("correspondence", "K15 " + meta[i]["func"], meta[i])
+
+def k17(res, tier, seed, tag="k17"):
+    """K17: hand model Model/IsimipStep5.v vs ISIMIP._step5_transfer_trend for the additive, multiplicative and bounded
+    methods (tie-free dyadic samples; 'mixed' uses a cosine weight and is not modelled)."""
+    logging.getLogger("ibicus").setLevel(logging.CRITICAL)
+    from ibicus.debias import ISIMIP
+    import scipy.stats
+    r = C.rng_for(seed, tag)
+    n = 30 if tier == "quick" else 300
+    cc = C.CoqCases(tag, ["QL", "Ecdf", "IsimipStep5", "CorrBase"], per_file=50)
+    meta = []
+    with warnings.catch_warnings():
+        warnings.simplefilter("ignore")
+        for i in range(n):
+            meth = ["additive", "multiplicative", "bounded"][i % 3]
+            no, nh, nf = r.randint(3, 12), r.randint(3, 12), r.randint(3, 12)
+            o, h, f = sample(r, no, 1, 9, 16, True), sample(r, nh, 1, 9, 16, True), sample(r, nf, 1, 9, 16, True)
+            if meth == "bounded" and i % 2: h[0] = o[0]          # an entry without bias
+            im = r.choice(["linear", "inverted_cdf", "hazen"]); em = "linear_interpolation" if im != "inverted_cdf" else r.choice(["step_function", "linear_interpolation"])
+            if im == "inverted_cdf":
+                # floor((m-1) p) at an exact integer: the grids of p (np.linspace, statsmodels) are inexact, either side may be taken
+                ps = [Fraction(k, no - 1) for k in range(no)] if em == "linear_interpolation" else [Fraction(k + 1, no) for k in range(no)]
+                if any(((m_ - 1) * p_).denominator == 1 and p_ not in (0, 1) for p_ in ps for m_ in (nh, nf)):
+                    res.count("k17-skipped-at-float-discontinuity"); continue
+            d = ISIMIP(trend_preservation_method=meth, distribution=scipy.stats.norm, nonparametric_qm=False, detrending=False, lower_bound=0.0, lower_threshold=0.5,
+                       upper_bound=10.0, upper_threshold=9.5, ecdf_method=em, iecdf_method=im)
+            out = d._step5_transfer_trend(fl(o), fl(h), fl(f))
+            tol = C.tol_for(list(out)) * 1000
+            M = {"additive": "TAdditive", "multiplicative": "TMultiplicative", "bounded": "TBounded"}[meth]
+            cc.add("close_list (step5 %s %s %s 0 10 %s %s %s) %s %s" % (M, em, im, C.ql(o), C.ql(h), C.ql(f), C.ql(out), C.q(tol)))
+            m = dict(func="ISIMIP._step5_transfer_trend", method=meth, ecdf=em, iecdf=im, obs_hist=[str(x) for x in o], cm_hist=[str(x) for x in h], cm_future=[str(x) for x in f])
+            meta.append(m); res.case(("step5", meth, em, im), sample=m if len(res.samples) < 5 else None)
+    fails, errors = cc.run()
+    res.components["K17 Model/IsimipStep5.v (hand model) vs ISIMIP._step5_transfer_trend"] = dict(cases=len(cc.cases), disagreements=len(fails), errors=len(errors))
+    for e in errors[:3]:
+        res.broke("correspondence-error", "K17", e)
+    for i in fails[:5]:
+        res.broke("correspondence", "K17 " + meta[i]["func"], meta[i])
